@@ -211,7 +211,7 @@ func run(c *mc.Ctx, r *mc.Result) {
 			if !c.Mine(i) || stopped {
 				return
 			}
-			if i&127 == 0 {
+			if i&15 == 0 {
 				if c.Expired() {
 					stopped = true
 					r.NotExhaustive = append(r.NotExhaustive, fmt.Sprintf("pool %s: time guard at subset #%d", pd.name, i))
